@@ -143,7 +143,7 @@ CHECKS = {
              'and LMTP, plus a pipe child outliving its timeout; TLC requires the attempt to end by the step timeout with a '
              'transient result.',
         design='5/C14', technique='virtual-time stall enumeration on real server and relay, TLC trace validation against TLA+ observers',
-        note='Every gevent Timeout is virtualised (harness/vt.py); the HTTP peer that never answers and the pipe children run in real time. TLS-handshake stalls are not driven. ' + TB),
+        note='Every gevent Timeout is virtualised (harness/vt.py); the HTTP peer that never answers and the pipe children run in real time. TLS: stalled handshakes, completed handshakes followed by silence (server sessions run through SmtpEdge.handle(), teardown included) and a TLS downstream that never answers the closing handshake are driven over real TLS. ' + TB),
     'C19': dict(
         level='model_checking',
         text='RelayPool.tla models callers, pool clients (new / idle / busy / ended), the request deque and the link callback '
@@ -152,7 +152,8 @@ CHECKS = {
              'StaticSmtpRelay / StaticLmtpRelay pools with 2-4 staggered attempts over scripted connections (failures, stalls, '
              'refused connections, reuse) are validated by TLC against the pool observer: live connections <= size, result '
              'carries the marker of its own envelope, every attempt returns, one message at a time per connection, RSET after a '
-             'failed transaction.',
+             'failed transaction; downstreams that hang up on idle connections, send reply lines nobody asked for, or answer RSET late are part of the schedules. '
+             'BlockingDeque.tla (the request queue) is validated step by step against random programs on the real class.',
         design='5/C19', technique='TLA+ pool model (TLC exhaustive, deviation switch) + TLC trace validation of real pool executions',
         note='In-memory scripted SMTP/LMTP downstream; loopback HTTP peer for the HttpRelay pool (real sockets: virtual time moves only while a request is stuck on a peer that stalls on purpose). ' + TB),
     'C02': dict(
@@ -163,7 +164,7 @@ CHECKS = {
              'write position and kind x slow writes x {real SMTP session, real WsgiEdge call} and the ProxyQueue results are '
              'executed on the real edges and Queue and validated by TLC against the edge observer.',
         design='5/C02', technique='TLA+ handoff model (TLC exhaustive, deviation switches) + exhaustive fault matrix on the real edges validated by TLC',
-        note='Storage is a DictStorage subclass that fails / blocks on the k-th write. ' + TB),
+        note='Storage is a DictStorage subclass that fails / blocks on the k-th write; plus the real DiskStorage under file-system faults (directory gone, ENOSPC, a refused rename, a short write; stored = readable by another storage object) and the proxying queue over the real pipe and HTTP relays. ' + TB),
     'C08': dict(
         level='exploration',
         text='The STARTTLS / AUTH matrices of the statement are finite and enumerated completely against the real Server and '
@@ -182,9 +183,11 @@ CHECKS = {
              'loopback (with and without keep-alive) for generated envelopes and server configurations and lets TLC compare, per execution, the '
              'envelope the edge handed to its queue with the one given to the relay (sender, recipients in order, content modulo '
              'the final CRLF), the extension sets on both sides, and the relay result with the edge reply. Address quoting and '
-             'header serialisation are codec fidelity (identity oracle), hence exploration.',
-        design='5/C06 and 8', technique='generated envelopes through real relay->edge hops, TLC trace validation with TLA+ equality/normalisation clauses',
-        note='SMTP relay -> SMTP edge (with connection reuse) and HTTP relay -> WSGI edge (with keep-alive) are driven; the library has no LMTP-speaking edge, so the LMTP client has no hop of its own (it is driven against a scripted peer in C10/C11/C19); hops that upgrade with STARTTLS (real TLS over the socketpair) are included. ' + TB),
+             'header serialisation are codec fidelity (identity oracle), hence exploration. The conversation of every clear-text SMTP hop is in addition judged '
+             'against the design model of the hop (spec/Hop.tla, relay client x receiving edge): TLC enumerates the complete behaviours per configuration and the real '
+             'conversation with its result must be one of them (drift is reported).',
+        design='5/C06 and 8', technique='generated envelopes through real relay->edge hops, TLC trace validation with TLA+ equality/normalisation clauses; membership of the real conversations in the TLC-enumerated behaviours of the Hop model',
+        note='SMTP relay -> SMTP edge (with connection reuse) and HTTP relay -> WSGI edge (with keep-alive) are driven; the LMTP client is driven into the SMTP edge too (LHLO answered by a custom command of the edge session, one recipient per message since the edge answers the content once); hops that upgrade with STARTTLS (real TLS over the socketpair) are included. ' + TB),
 }
 
 HOOK_COMMITS = []
